@@ -48,6 +48,34 @@ def generate(tier, seed, shard, nshards):
                 c['args']['w'] = f0 + j * 0.8 * W_RES
             yield {'circuit': cd, 'w_max': 2 * f0, 'stratum': 'chained-coincidence', 'w0': f0}
             continue
+        if k % 25 == 23:
+            # radio-frequency fundamentals: the harmonics k*w0 are far beyond 2**53 resolutions, so whether a harmonic 'is' an analysed
+            # line cannot be decided from the rounded quotient w/w0
+            w0 = 2 * math.pi * 10 ** rng.uniform(10.5, 12.5)
+            for _ in range(20):
+                cd = GC.random_circuit(rng, max_nodes=4, max_comps=6, passives=['resistor', 'resistor', 'conductance'], n_reactive=(0, 0),
+                                       sources=['periodic_voltage_source', 'periodic_current_source', 'dc_voltage_source'], n_sources=(1, 2), freqs=[w0], lossy=0.0, ground_prob=0.8)
+                if any(circdesc.is_periodic(c) for c in cd['components']):
+                    break
+            for c in cd['components']:
+                if circdesc.is_periodic(c):
+                    c['args']['w'] = w0
+            yield {'circuit': cd, 'w_max': (rng.choice([16, 25, 40]) + 0.5) * w0, 'stratum': 'fast-fundamental', 'w0': w0}
+            continue
+        if k % 25 == 22:
+            # a fundamental at or below the frequency resolution (periods of hours): neighbouring harmonics of ONE source lie within the
+            # resolution of each other; the source's own waveform still has to come back
+            w0 = rng.choice([rng.uniform(2e-4, 1e-3), 1e-3, 8e-4, 5e-4])
+            for _ in range(20):
+                cd = GC.random_circuit(rng, max_nodes=3, max_comps=4, passives=['resistor', 'resistor', 'conductance'], n_reactive=(0, 0),
+                                       sources=['periodic_voltage_source'], n_sources=(1, 1), freqs=[w0], lossy=0.0, ground_prob=0.8)
+                if any(c['ctor'] == 'periodic_voltage_source' for c in cd['components']):
+                    break
+            for c in cd['components']:
+                if circdesc.is_periodic(c):
+                    c['args']['w'] = w0
+            yield {'circuit': cd, 'w_max': (rng.choice([3, 5, 8]) + 0.5) * w0, 'stratum': 'sub-resolution-fundamental', 'w0': w0}
+            continue
         if stratum == 'near-coincidence':
             # an AC source close to a harmonic: either inside the resolution (one merged line, both sources active) or clearly
             # outside it but closer than w_resolution*w0 (two separate lines, the harmonic must not leak into the AC line)
@@ -226,9 +254,56 @@ def counted_once_clause(case, ctx, prefix):
             return
 
 
+def waveform_clause(ctx, prefix, c, tds, w_max, key):
+    """an ideal periodic voltage source reproduces its own waveform up to the truncation error of the retained harmonics"""
+    from CircuitCalculator.SignalProcessing.periodic_functions import periodic_function
+    a = c['args']
+    Tp = 2 * math.pi / a['w']
+    pf = periodic_function(a['wavetype'])(period=Tp, amplitude=a['V'], phase=a['phi'])
+    M = 400
+    tg = (np.arange(M) + 0.37) * Tp / M
+    own = np.asarray(pf.time_function(tg), dtype=float).reshape(-1)
+    yv = call(lambda: np.asarray(tds.get_voltage(c['id'])(tg), dtype=float).reshape(-1))
+    if raised(yv):
+        ctx.violation(f'{prefix}/time-domain/query-raised/{yv.key}', yv.text, {})
+        return
+    nmax = int(math.floor(w_max / a['w'] * (1 + 1e-12)))
+    tail = sum(0.5 * abs(circdesc.periodic_phasor(a['wavetype'], a['V'], a['w'], a['phi'], n) or 0) ** 2 for n in range(nmax + 1, nmax + 400))
+    tail += 0.5 * (4 * abs(a['V']) / math.pi) ** 2 / (nmax + 400)
+    mse = float(np.mean((own - yv) ** 2))
+    ctx.count('periodic_waveforms_checked')
+    if mse > 3 * tail + 1e-9 * a['V'] ** 2 + 0.02 * a['V'] ** 2 / max(1, nmax):
+        ctx.violation(f'{prefix}/time-domain/periodic-source-waveform{key}', f'{a["wavetype"]} source {c["id"]!r} (w0 = {a["w"]!r}): mean-square deviation from its own waveform {mse!r}, admissible truncation energy {tail!r} (harmonics <= {nmax})', {})
+
+
+def slow_fundamental_clause(case, ctx, prefix):
+    from CircuitCalculator.Circuit.solution import TimeDomainSolution
+    cd, w_max = case['circuit'], case['w_max']
+    circ = call(circdesc.to_lib, cd)
+    if raised(circ):
+        ctx.violation(f'{prefix}/valid-circuit-rejected/{circ.key}', circ.text, {})
+        return
+    rd = netsolve.reference_from_ref(circdesc.ref_network(cd, 0.0, W_RES), {c['id']: c['ctor'] for c in cd['components']})
+    if rd is None or rd['kappa'] > 1e7:
+        ctx.count('set_aside_ill_posed_or_conditioned')
+        return
+    tds = call(TimeDomainSolution, circ, w_max)
+    if raised(tds):
+        ctx.violation(f'{prefix}/time-domain/raised/{tds.key}', tds.text, {})
+        return
+    ctx.count('circuits_judged'); ctx.count('stratum_sub-resolution-fundamental')
+    ctx.evaluated(circdesc.signature(cd, ('sub-resolution-fundamental',)), True)
+    ctx.sample(case)
+    for c in cd['components']:
+        if c['ctor'] == 'periodic_voltage_source' and c['args']['wavetype'] != 'const' and c['args']['V'] != 0:
+            waveform_clause(ctx, prefix, c, tds, w_max, '/sub-resolution-fundamental')
+
+
 def judge(case, ctx, prefix='C09'):
     if case['stratum'] == 'chained-coincidence':
         return counted_once_clause(case, ctx, prefix)
+    if case['stratum'] == 'sub-resolution-fundamental':
+        return slow_fundamental_clause(case, ctx, prefix)
     from CircuitCalculator.Circuit.circuit import frequency_components
     from CircuitCalculator.Circuit.solution import TimeDomainSolution, FrequencyDomainSolution
     cd, w_max = case['circuit'], case['w_max']
@@ -414,21 +489,7 @@ def judge(case, ctx, prefix='C09'):
     # periodic voltage source reproduces its own waveform up to the truncation error
     for c in comps:
         if c['ctor'] == 'periodic_voltage_source':
-            from CircuitCalculator.SignalProcessing.periodic_functions import periodic_function
-            a = c['args']
-            Tp = 2 * math.pi / a['w']
-            pf = periodic_function(a['wavetype'])(period=Tp, amplitude=a['V'], phase=a['phi'])
-            M = 400
-            tg = (np.arange(M) + 0.37) * Tp / M
-            own = np.asarray(pf.time_function(tg), dtype=float).reshape(-1)
-            yv = np.asarray(call(call(tds.get_voltage, c['id']), tg), dtype=float).reshape(-1)
-            nmax = int(math.floor(w_max / a['w'] * (1 + 1e-12)))
-            tail = sum(0.5 * abs(circdesc.periodic_phasor(a['wavetype'], a['V'], a['w'], a['phi'], n) or 0) ** 2 for n in range(nmax + 1, nmax + 400))
-            tail += 0.5 * (4 * abs(a['V']) / math.pi) ** 2 / (nmax + 400)
-            mse = float(np.mean((own - yv) ** 2))
-            ctx.count('periodic_waveforms_checked')
-            if mse > 3 * tail + 1e-9 * a['V'] ** 2 + 0.02 * a['V'] ** 2 / max(1, nmax):
-                ctx.violation(f'{prefix}/time-domain/periodic-source-waveform', f'{a["wavetype"]} source {c["id"]!r}: mean-square deviation from its own waveform {mse!r}, admissible truncation energy {tail!r} (harmonics <= {nmax})', {})
+            waveform_clause(ctx, prefix, c, tds, w_max, '')
 
 
 def guards(m, tier):
